@@ -29,7 +29,7 @@
    line of j symbols to 4096 - cap + j bytes (lines of 4094 / 4095 / 4096 bytes x LF / CRLF / none / a
    dangling CR x first / middle / last line of the body, valid distinct metrics) for the real consume loop.
 """
-import hashlib, json, os, random
+import hashlib, json, os, random, re
 from checks import framlib
 from vlib.core import Machinery
 
@@ -405,7 +405,7 @@ def udp_burst(ctx):
                       env=dict(VERIF_C12_BURST_RESULT=rf, VERIF_C12_BURSTS=nb))
     recs = ctx.read_ndjson(rf) if os.path.exists(rf) else []
     if res["rc"] != 0:
-        if "panic:" in res["text"] or "fatal error:" in res["text"]:
+        if panic_in_repo(res["text"]):
             ctx.violation("handler-panics udp-burst", "the UDP input panicked under a burst of datagrams", dict(tail=res["text"][-2000:]))
             return
         raise Machinery("udp burst driver failed (rc=%s); log %s\n%s" % (res["rc"], res["log"], res["text"][-2000:]))
@@ -459,6 +459,19 @@ def udp_burst(ctx):
                                 datagrams_lost_whole=sum(len(b["lens"]) - len({x[0] for x in b["got"]} - {0}) for b in bursts),
                                 model_deviations_rejected=rej)
     return len(bursts)
+
+
+def panic_in_repo(text):
+    """a Go panic / fatal error whose panicking goroutine is inside the repository's code (a panic raised by the
+    harness itself is a fault of the machinery, never a verdict)"""
+    m = re.search(r"(?:^|\n)(?:panic:|fatal error:)", text)
+    if not m:
+        return False
+    rest = text[m.start():]
+    g = re.search(r"\ngoroutine \d+ \[running\]:\n(.*?)(?:\n\n|$)", rest, re.S)
+    frames = [l for l in (g.group(1) if g else rest).splitlines() if l and not l.startswith("\t")]
+    frames = [f for f in frames if not f.startswith(("panic(", "runtime.", "testing.", "sync.", "internal/"))]
+    return bool(frames) and "github.com/grafana/carbon-relay-ng/" in frames[0]
 
 
 def run(ctx):
